@@ -1205,6 +1205,7 @@ class AddItems(Opcode):
                 f"{pyset!r} was expected to be a set-like object with an `add` function"
             )
         pyset.elts.extend(reversed(to_add))
+        interpreter.stack.append(pyset)
 
 
 class Reduce(Opcode):
